@@ -2,7 +2,7 @@
 (* econftool edit / revert / show as a state machine over the file system: every tree made of a subset of five files
    (vendor main, vendor drop-in, local main, local drop-in, a malformed local drop-in), every sequence of up to MaxSteps
    commands  edit {drop-in, --full} x editor {keep, append a key, append a multi-line key, replace everything,
-   append a malformed line}, revert.  Action properties state what the commands promise; every reached state is exported
+   append a malformed line, append a commented-out assignment}, revert.  Action properties state what the commands promise; every reached state is exported
    as a case (initial files, commands, expected files and `show` output) for replay against the real tool. *)
 EXTENDS ToolEdit, TLC, Json
 CONSTANTS MaxSteps, Export
@@ -24,7 +24,8 @@ Editors == { [kind |-> "keep", lines |-> <<>>],
              [kind |-> "append", lines |-> << <<110, 61, 55>> >>],                                       \* n=7
              [kind |-> "append", lines |-> << <<118, 61, 111, 110, 101>>, <<32, 116, 119, 111>> >>],      \* v=one / " two"
              [kind |-> "replace", lines |-> << <<97, 61, 48>> >>],                                        \* a=0
-             [kind |-> "append", lines |-> << <<91, 120>> >>] }                                           \* [x   (malformed)
+             [kind |-> "append", lines |-> << <<91, 120>> >>],                                            \* [x   (malformed)
+             [kind |-> "comment", lines |-> << <<35, 113, 61, 56>> >>] }                                  \* #q=8 (a commented-out assignment)
 NoLast == [cmd |-> "none"]
 Init == /\ \E S \in SUBSET DOMAIN Pool : fs = [p \in S |-> Pool[p]] /\ init = fs
         /\ acts = <<>> /\ last = NoLast
@@ -49,10 +50,15 @@ EditTouchesOnlyTarget == last.cmd = "edit" =>
 \* an edit fails exactly when the tree cannot be read, the edited text cannot be parsed, or nothing is left in it (Dev_EditToNothingFails)
 EditFailsIff == last.cmd = "edit" =>
    (last.ok <=> /\ TreeOf(last.before, Root, Name, Sfx).rc \in {"ECONF_SUCCESS", "ECONF_NOFILE"} /\ last.ed.lines # << <<91, 120>> >>
-                /\ ~(TreeOf(last.before, Root, Name, Sfx).rc = "ECONF_NOFILE" /\ last.ed.kind = "keep"))
+                /\ ~(TreeOf(last.before, Root, Name, Sfx).rc = "ECONF_NOFILE" /\ last.ed.kind \in {"keep", "comment"}))
 \* leaving the text as it is leaves the configuration as it is: the drop-in holds the whole merged configuration, files that
 \* are read after it override it with values it already has
 KeepKeepsConfiguration == (last.cmd = "edit" /\ last.ok /\ last.ed.kind = "keep") => Show(fs).triples = Show(last.before).triples
+\* a commented-out assignment appended in the editor is inert (C05 seen through the tool): the configuration is what it was and
+\* the commented key is not part of it
+CommentedLineIsInert == (last.cmd = "edit" /\ last.ok /\ last.ed.kind = "comment") =>
+   /\ Show(fs).triples = Show(last.before).triples
+   /\ \A t \in Show(fs).triples : t[2] # <<113>> /\ t[2] # <<35, 113>>
 \* a key appended in the editor is part of the configuration afterwards (nothing in these trees defines n or v)
 AppendedKeyIsShown == (last.cmd = "edit" /\ last.ok /\ last.ed.kind = "append") =>
    \E t \in Show(fs).triples : t[2] = SubSeq(last.ed.lines[1], 1, 1) /\ Len(t[3]) = Len(last.ed.lines)
